@@ -132,7 +132,7 @@ def api_call(rnd, pool=()):
     cp = _cp()
     k = rnd.choice(['parseString', 'parseString', 'parseStyle', 'parser-reuse', 'old-parser', 'old-parser', 'medialist', 'mediaquery', 'selector',
                     'selectorlist', 'style-text', 'property', 'sheet-text', 'rule-text', 'append-medium', 'append-selector',
-                    'serialize-prefs', 'csscombine', 'value', 'import-raise', 'set-raise', 'set-serializer', 'import-media', 'parse-media'])
+                    'serialize-prefs', 'csscombine', 'value', 'import-raise', 'set-raise', 'set-serializer', 'import-media', 'parse-media', 'global-prefs', 'global-prefs'])
     t = rnd.choice(list(TEXTS))
     s = rnd.choice(SETTER_TEXTS) if rnd.random() < 0.5 else gen_text(rnd)
     raising = rnd.random() < 0.5
@@ -196,6 +196,23 @@ def api_call(rnd, pool=()):
             ser.prefs.indent = rnd.choice(['', '\t', '  '])
             ser.do_CSSStyleSheet(sh)
         return ('serialize with private prefs', f)
+    if k == 'global-prefs':
+        # the caller switches preferences of the GLOBAL serializer on, serialises, and switches them off again
+        names = rnd.sample(['indentSpecificities', 'keepAllProperties', 'omitLastSemicolon', 'keepUsedNamespaceRulesOnly', 'lineNumbers',
+                            'indentClosingBrace', 'keepEmptyRules', 'resolveVariables', 'minimizeColorHash'], 3)
+
+        def f():
+            prefs = cp.ser.prefs
+            old = {n: getattr(prefs, n) for n in names}
+            try:
+                for n in names:
+                    setattr(prefs, n, not old[n])
+                for text in rnd.sample(['a {left:0} a.b {color: red}', GOOD_SHEET, 'x, y.z { top: 0 } x { left: 0 }'], 3):
+                    cp.CSSParser(fetcher=fetcher_ok).parseString(text).cssText
+            finally:
+                for n in names:
+                    setattr(prefs, n, old[n])
+        return ('serialize under global prefs %s toggled, then restored' % names, f)
     if k == 'csscombine':
         enc = rnd.choice(['utf-8', 'ascii', 'no-such-enc'])
         from css_parser.script import csscombine
